@@ -31,7 +31,7 @@ CODES = {
     8: "the Vault implements storage.Recovery but coercion.New used it (Search/Read/Update*) before calling Recovery(), or never called it",
     11: "coercion.New returned an error although its context was live and no store operation fails",
     12: "coercion.New returned an error, but something was executed or the store is not what a prefix of the closes' writes leaves",
-    10: "the Update* calls that closed an aged plan are not the model's write list (the plan row first, then every other row in walk order)",
+    10: "the Update* calls that closed an aged plan are not the model's write list (every row but the plan's in walk order, then the plan row)",
     9: "inconclusive: the age boundary fell between the clock readings before and after coercion.New",
 }
 
@@ -220,7 +220,7 @@ def run(ctx):
                 return "new-with-done-context"
             if c["dist"].get("crash_after_write"):
                 return "crash-during-close"
-            if code == 10 or (o and o.get("status") == "Running" and o.get("after_reason") == "FRExceedRecovery" and o.get("first_row_written", 0) > 0):
+            if code == 10 or (o and o.get("status") == "Running" and o.get("after_reason") == "FRExceedRecovery" and o.get("first_row_written", 1) == 0 and o.get("objects", 1) > 1):
                 return "close-write-order"
             if c["dist"].get("stale_index_plans") and o is not None and (c.get("observed") or []).index(o) in c["dist"]["stale_index_plans"]:
                 return "terminal-plan-listed-by-stale-index-touched"
@@ -242,7 +242,7 @@ def run(ctx):
                 if str(plan_obs.get("witness", "")).startswith("attempt."):
                     why += " -- the recent record is an attempt: lastUpdate ignores attempts"
             elif k == "close-write-order" and plan_obs:
-                why += " -- the first Update* call of the close rewrote row %s of the plan in walk order (0 = the plan row, which the model writes first: that is what takes the plan out of the Running set and makes the close crash-safe, theorem c11_close_is_crash_safe)" % plan_obs.get("first_row_written")
+                why += " -- the first Update* call of the close rewrote row %s of the plan in walk order (0 = the plan row, which the model writes LAST: while it is Running the next start-up repeats an interrupted close; R10)" % plan_obs.get("first_row_written")
             elif k == "crash-during-close" and plan_obs:
                 why += " -- incarnation 1 died after write %s of start-up recovery (closing a stale Running plan), incarnation 2 then opened the same store: afterwards %s/%s, %d plugin call(s) over both incarnations, %d vault write(s) by incarnation 2, %d object(s) Running" % (
                     c["dist"].get("crash_after_write"), plan_obs.get("after_status"), plan_obs.get("after_reason"), plan_obs.get("plugin_calls", 0),
@@ -297,9 +297,8 @@ def run(ctx):
         crash_during_close=dict(
             cases=len(crash_cases), stores=len({c["input"]["index"] for c in crash_cases}),
             what="a stale Running plan is closed by an incarnation that dies after the j-th Update* of start-up recovery, for every j of the close; "
-                 "a second incarnation then opens the same store; the model (plan row first) predicts: never handed to runPlan, no plugin call, no write by the second incarnation",
-            observation_not_alarmed="after a crash mid-close the plan row is Failed/ExceedRecovery, so no later start-up considers the plan and the objects the "
-                                    "interrupted close had not yet written STAY Running for good (model and implementation agree; c11_ex_crash_leaves_children_running)",
+                 "a second incarnation then opens the same store; the model (children first, ending at the plan's last activity; plan row last) predicts: the second incarnation finds the plan Running and stale again and completes the close: Failed/ExceedRecovery, nothing Running, never handed to runPlan, no plugin call",
+            observation_not_alarmed="none since fix f93b03f (R10): the second incarnation repeats an interrupted close; cases_with_objects_left_running must be 0",
             cases_with_objects_left_running=len(half),
             example=(dict(case=half[0][0]["id"], j=half[0][0]["dist"]["crash_after_write"], objects=half[0][1]["objects"],
                           left_running=half[0][1]["running_after"], input=half[0][0]["input"]) if half else None)),
